@@ -309,8 +309,8 @@ Proof.
     inversion Hp; subst enc; clear Hp.
     assert (Ec : uint8 (uint8 n + uint8 OP_PUSHBYTES1 + 255) = n) by (unfold uint8; op_consts; lia).
     rewrite Ec in Hs. rewrite <- app_comm_cons in Hs.
-    destruct (read_opcode_at s _ _ Hs) as (s1 & E1 & Hs1).
-    unfold read_bytes. rewrite E1.
+    destruct (read_opcode_at s _ _ Hs) as (s1 & Q1 & Hs1).
+    unfold read_bytes. rewrite Q1.
     decide_eqb n OP_PUSHDATA4. decide_eqb n OP_PUSHDATA2. decide_eqb n OP_PUSHDATA1.
     replace ((n <=? OP_PUSHBYTES75) && (OP_PUSHBYTES1 <=? n)) with true
       by (symmetry; apply andb_true_iff; split; apply N.leb_le; op_consts; lia).
@@ -318,42 +318,165 @@ Proof.
     2:{ replace (n + two64 - OP_PUSHBYTES1 + 1) with (n + 1 * two64) by (op_consts; lia).
         rewrite N.mod_add by discriminate. symmetry; apply N.mod_small. pose proof two32_lt_two64. lia. }
     cbv beta iota zeta.
-    destruct (next_bytes_at' s1 d r Hs1) as (s3 & E3 & Hs3). fold n in E3. rewrite E3.
+    destruct (next_bytes_at' s1 d r Hs1) as (s3 & Q3 & Hs3). fold n in Q3. rewrite Q3.
     exists s3. split; [reflexivity|exact Hs3].
   - destruct (N.ltb_spec n 256) as [B|B].
     { (* PUSHDATA1 *)
       inversion Hp; subst enc; clear Hp. unfold write_uint8 in Hs.
       rewrite N.mod_small in Hs by exact B.
       rewrite <- !app_comm_cons in Hs. simpl app in Hs.
-      destruct (read_opcode_at s _ _ Hs) as (s1 & E1 & Hs1).
-      unfold read_bytes. rewrite E1.
+      destruct (read_opcode_at s _ _ Hs) as (s1 & Q1 & Hs1).
+      unfold read_bytes. rewrite Q1.
       decide_eqb OP_PUSHDATA1 OP_PUSHDATA4. decide_eqb OP_PUSHDATA1 OP_PUSHDATA2.
       decide_eqb OP_PUSHDATA1 OP_PUSHDATA1.
-      destruct (next_byte_at s1 _ _ Hs1) as (s2 & E2 & Hs2). rewrite E2.
+      destruct (next_byte_at s1 _ _ Hs1) as (s2 & Q2 & Hs2). rewrite Q2.
       cbv beta iota zeta.
-      destruct (next_bytes_at' s2 d r Hs2) as (s3 & E3 & Hs3). fold n in E3. rewrite E3.
+      destruct (next_bytes_at' s2 d r Hs2) as (s3 & Q3 & Hs3). fold n in Q3. rewrite Q3.
       exists s3. split; [reflexivity|exact Hs3]. }
     destruct (N.ltb_spec n 65536) as [C|C].
     { (* PUSHDATA2 *)
-      inversion Hp; subst enc; clear Hp. unfold write_uint16 in Hs.
-      rewrite <- !app_comm_cons, <- app_assoc in Hs.
-      destruct (read_opcode_at s _ _ Hs) as (s1 & E1 & Hs1).
-      unfold read_bytes. rewrite E1.
+      inversion Hp; subst enc; clear Hp.
+      assert (Hs' : src_at s (OP_PUSHDATA2 :: le_encode 2 n ++ d ++ r)) by exact Hs. clear Hs; rename Hs' into Hs.
+      destruct (read_opcode_at s _ _ Hs) as (s1 & Q1 & Hs1).
+      unfold read_bytes. rewrite Q1.
       decide_eqb OP_PUSHDATA2 OP_PUSHDATA4. decide_eqb OP_PUSHDATA2 OP_PUSHDATA2.
-      destruct (next_uint_at' 2 n s1 (d ++ r)) as (s2 & E2 & Hs2); [exact C|exact Hs1|].
-      unfold next_uint16. replace UINT16_SIZE with 2%nat by reflexivity. rewrite E2.
+      destruct (next_uint_at' 2 n s1 (d ++ r)) as (s2 & Q2 & Hs2); [exact C|exact Hs1|].
+      unfold next_uint16. replace UINT16_SIZE with 2%nat by reflexivity. rewrite Q2.
       cbv beta iota zeta.
-      destruct (next_bytes_at' s2 d r Hs2) as (s3 & E3 & Hs3). fold n in E3. rewrite E3.
+      destruct (next_bytes_at' s2 d r Hs2) as (s3 & Q3 & Hs3). fold n in Q3. rewrite Q3.
       exists s3. split; [reflexivity|exact Hs3]. }
     (* PUSHDATA4 *)
-    inversion Hp; subst enc; clear Hp. unfold write_uint32 in Hs.
-    rewrite <- !app_comm_cons, <- app_assoc in Hs.
-    destruct (read_opcode_at s _ _ Hs) as (s1 & E1 & Hs1).
-    unfold read_bytes. rewrite E1.
+    inversion Hp; subst enc; clear Hp.
+    assert (Hs' : src_at s (OP_PUSHDATA4 :: le_encode 4 n ++ d ++ r)) by exact Hs. clear Hs; rename Hs' into Hs.
+    destruct (read_opcode_at s _ _ Hs) as (s1 & Q1 & Hs1).
+    unfold read_bytes. rewrite Q1.
     decide_eqb OP_PUSHDATA4 OP_PUSHDATA4.
-    destruct (next_uint_at' 4 n s1 (d ++ r)) as (s2 & E2 & Hs2); [exact Hl|exact Hs1|].
-    unfold next_uint32. replace UINT32_SIZE with 4%nat by reflexivity. rewrite E2.
+    destruct (next_uint_at' 4 n s1 (d ++ r)) as (s2 & Q2 & Hs2); [exact Hl|exact Hs1|].
+    unfold next_uint32. replace UINT32_SIZE with 4%nat by reflexivity. rewrite Q2.
     cbv beta iota zeta.
-    destruct (next_bytes_at' s2 d r Hs2) as (s3 & E3 & Hs3). fold n in E3. rewrite E3.
+    destruct (next_bytes_at' s2 d r Hs2) as (s3 & Q3 & Hs3). fold n in Q3. rewrite Q3.
     exists s3. split; [reflexivity|exact Hs3].
+Qed.
+
+(** * 4. Numbers pushed by PushNum (a uint16) and read by ReadNum *)
+
+Fixpoint nrange (f : nat) (i : N) : list N :=
+  match f with O => [] | S f' => i :: nrange f' (N.succ i) end.
+
+Lemma nrange_in f : forall i v, i <= v < i + N.of_nat f -> In v (nrange f i).
+Proof.
+  induction f as [|f IH]; intros i v H; [lia|]. simpl.
+  destruct (N.eq_dec i v) as [->|Hne]; [left; reflexivity|right]. apply IH. lia.
+Qed.
+
+(** What the builder and parser need to know about BigIntToNeoBytes / BigIntFromNeoBytes /
+    Int64 on the uint16 range: a complete sweep of 0..65535. *)
+Definition num_fact (v : N) : bool :=
+  let b := neo_of_N v in
+  (length b <=? 3)%nat &&
+  (if v =? 0 then bytes_eqb b [] else (1 <=? length b)%nat) &&
+  (int64_of_Z (neo_to_Z b) =? Z.of_N v)%Z &&
+  (if (1 <=? v) && (v <=? 16) then bytes_eqb b [v] else true) &&
+  wf_bytes b.
+
+Lemma num_sweep : forallb num_fact (nrange (N.to_nat 65536) 0) = true.
+Proof. Time vm_compute. reflexivity. Qed.
+
+Lemma num_fact_all v : v <= 65535 -> num_fact v = true.
+Proof.
+  intro H. pose proof num_sweep as S. rewrite forallb_forall in S. apply S.
+  apply nrange_in. rewrite N2Nat.id. lia.
+Qed.
+
+Lemma neo_small v : 1 <= v <= 16 -> neo_of_N v = [v].
+Proof.
+  intro H. pose proof (num_fact_all v ltac:(lia)) as F. unfold num_fact in F.
+  replace ((1 <=? v) && (v <=? 16)) with true in F
+    by (symmetry; apply andb_true_iff; split; apply N.leb_le; lia).
+  repeat (apply andb_prop in F; destruct F as [F ?]).
+  apply bytes_eqb_eq; assumption.
+Qed.
+
+Lemma neo_zero : neo_of_N 0 = []. Proof. reflexivity. Qed.
+
+Lemma neo_big v : 16 < v <= 65535 ->
+  neo_of_N v <> [] /\ (length (neo_of_N v) <= 3)%nat /\ int64_of_Z (neo_to_Z (neo_of_N v)) = Z.of_N v.
+Proof.
+  intro H. pose proof (num_fact_all v ltac:(lia)) as F. unfold num_fact in F.
+  replace (v =? 0) with false in F by (symmetry; apply N.eqb_neq; lia).
+  repeat (apply andb_prop in F; destruct F as [F ?]).
+  repeat split.
+  - intro E. rewrite E in *. discriminate.
+  - apply Nat.leb_le; assumption.
+  - apply Z.eqb_eq; assumption.
+Qed.
+
+Lemma push_num_small v : 1 <= v <= 16 -> push_num v = Some [OP_PUSH1 + v - 1].
+Proof.
+  intro H. unfold push_num.
+  replace (v =? 0) with false by (symmetry; apply N.eqb_neq; lia).
+  replace (v <=? 16) with true by (symmetry; apply N.leb_le; lia).
+  do 2 f_equal. unfold uint8. op_consts. lia.
+Qed.
+
+Lemma push_num_big v : 16 < v -> push_num v = push_bytes (neo_of_N v).
+Proof.
+  intro H. unfold push_num.
+  replace (v =? 0) with false by (symmetry; apply N.eqb_neq; lia).
+  replace (v <=? 16) with false by (symmetry; apply N.leb_gt; lia). reflexivity.
+Qed.
+
+Lemma small_num_push v : 1 <= v <= 16 -> small_num (OP_PUSH1 + v - 1) = Some v.
+Proof.
+  intro H. unfold small_num.
+  replace (Z.of_N (OP_PUSH1 + v - 1) - Z.of_N OP_PUSH1 + 1)%Z with (Z.of_N v) by (op_consts; lia).
+  replace ((1 <=? Z.of_N v)%Z && (Z.of_N v <=? 16)%Z) with true
+    by (symmetry; apply andb_true_iff; split; apply Z.leb_le; lia).
+  rewrite N2Z.id. reflexivity.
+Qed.
+
+Lemma small_num_none c : c < OP_PUSH1 \/ OP_PUSH1 + 15 < c -> small_num c = None.
+Proof.
+  intro H. unfold small_num.
+  destruct ((1 <=? Z.of_N c - Z.of_N OP_PUSH1 + 1)%Z && (Z.of_N c - Z.of_N OP_PUSH1 + 1 <=? 16)%Z) eqn:E; [|reflexivity].
+  apply andb_prop in E. destruct E as [E1 E2]. apply Z.leb_le in E1, E2. op_consts. lia.
+Qed.
+
+Lemma small_num_some c v : small_num c = Some v -> 1 <= v <= 16 /\ c = OP_PUSH1 + v - 1.
+Proof.
+  unfold small_num.
+  destruct ((1 <=? Z.of_N c - Z.of_N OP_PUSH1 + 1)%Z && (Z.of_N c - Z.of_N OP_PUSH1 + 1 <=? 16)%Z) eqn:E; [|discriminate].
+  intro H. inversion H; subst; clear H. apply andb_prop in E. destruct E as [E1 E2]. apply Z.leb_le in E1, E2. op_consts. lia.
+Qed.
+
+(** ReadNum reads back what PushNum wrote, for every uint16. *)
+Lemma read_num_at s v enc r : v <= 65535 -> push_num v = Some enc -> src_at s (enc ++ r) ->
+  exists s', read_num s = inl (v, s') /\ src_at s' r.
+Proof.
+  intros Hv Hp Hs. unfold read_num.
+  destruct (N.eq_dec v 0) as [->|Hnz].
+  - injection Hp as <-. simpl app in Hs.
+    rewrite (peek_opcode_at _ _ _ Hs). rewrite N.eqb_refl.
+    eexists. split; [reflexivity|]. eapply skip_opcode_at; exact Hs.
+  - destruct (N.le_gt_cases v 16) as [Hs16|Hb].
+    + rewrite push_num_small in Hp by lia. injection Hp as <-. simpl app in Hs.
+      rewrite (peek_opcode_at _ _ _ Hs).
+      replace (OP_PUSH1 + v - 1 =? OP_PUSH0) with false by (symmetry; apply N.eqb_neq; op_consts; lia).
+      match goal with |- ?G => idtac G end.
+      rewrite small_num_push by lia.
+      eexists. split; [reflexivity|]. eapply skip_opcode_at; exact Hs.
+    + rewrite push_num_big in Hp by lia.
+      destruct (neo_big v ltac:(lia)) as (Hne & Hlen & Hval).
+      destruct (push_bytes_some (neo_of_N v) Hne) as (hdr & Hpb & c & rest & -> & Hc).
+      { unfold two32. lia. }
+      rewrite Hpb in Hp. injection Hp as <-.
+      assert (Hs0 := Hs). rewrite <- !app_comm_cons in Hs0.
+      rewrite (peek_opcode_at _ _ _ Hs0).
+      replace (c =? OP_PUSH0) with false by (symmetry; apply N.eqb_neq; op_consts; lia).
+      rewrite small_num_none by (op_consts; lia).
+      destruct (read_bytes_at s (neo_of_N v) _ r Hpb) as (s' & Er & Hs'); [unfold two32; lia|exact Hs|].
+      rewrite Er, Hval.
+      replace ((65535 <? Z.of_N v)%Z || (Z.of_N v <=? 16)%Z) with false.
+      2:{ symmetry. apply orb_false_iff. split; [apply Z.ltb_ge|apply Z.leb_gt]; lia. }
+      rewrite N2Z.id. exists s'. split; [reflexivity|exact Hs'].
 Qed.
